@@ -87,6 +87,11 @@ def parseOp : List String → Option Op
   | ["connect_async"] => some .connectAsync
   | ["rx", "connack", sp, rc] => (rc.toNat?).map fun r => .rx (.pkt (.connack (sp = "1") r)) true
   | ["rx", "connack", sp, rc, o] => (rc.toNat?).map fun r => .rx (.pkt (.connack (sp = "1") r)) (o = "ok")
+  -- (MQTT 5 acknowledgements may carry a reason code `rc=<n>`: the client decodes it and, like the model, does not act on it)
+  | ["rx", "puback", m, _] => m.toNat?.map fun k => .rx (.pkt (.puback k)) true
+  | ["rx", "pubrec", m, _] => m.toNat?.map fun k => .rx (.pkt (.pubrec k)) true
+  | ["rx", "pubrel", m, _] => m.toNat?.map fun k => .rx (.pkt (.pubrel k)) true
+  | ["rx", "pubcomp", m, _] => m.toNat?.map fun k => .rx (.pkt (.pubcomp k)) true
   | ["rx", "puback", m] => m.toNat?.map fun k => .rx (.pkt (.puback k)) true
   | ["rx", "pubrec", m] => m.toNat?.map fun k => .rx (.pkt (.pubrec k)) true
   | ["rx", "pubrel", m] => m.toNat?.map fun k => .rx (.pkt (.pubrel k)) true
